@@ -151,6 +151,8 @@ pub fn garbage_alphabet() -> Vec<Op> {
         Op::CreateDir { base: r, path: "d".into(), keep: None },
         Op::CreateFile { base: r, path: format!("d/{}", "m".repeat(160)), keep: None },
         Op::CreateFile { base: r, path: "d/a".into(), keep: None },
+        // the longest legal name: twenty long-name slots
+        Op::CreateFile { base: r, path: format!("d/{}", "w".repeat(255)), keep: None },
         Op::CreateFile { base: r, path: "d/long-name-1.txt".into(), keep: None },
         Op::List { base: r, path: "d".into() },
         Op::Remove { base: r, path: format!("d/{}", "m".repeat(160)) },
@@ -188,6 +190,16 @@ pub fn specs(tier: &str, _prop: &str) -> Vec<ExpSpec> {
     for ft in [FatType::Fat12, FatType::Fat16, FatType::Fat32] {
         v.push(ExpSpec::new(vol::tiny_low(ft, 2, 16), alpha::mixed(512), if th { 5 } else { 4 }));
     }
+    // advancing clock + access-date updates: the entry editors of directories and of temporaries become dirty, so
+    // write-backs of a directory's own entry happen (and may land in slots that were deleted / moved meanwhile)
+    for ft in [FatType::Fat12, FatType::Fat32] {
+        let mut c = vol::tiny_with(ft, 8, 16);
+        c.name = format!("{}-clock-atime", c.name);
+        c.ticking = true;
+        c.atime = true;
+        v.push(ExpSpec::new(c, alpha::mixed(512), if th { 4 } else { 3 }));
+    }
+    v.extend(name_specs(th));
     // FAT32 cluster numbers above 0xFFFF (high word of the first-cluster field in use)
     v.push(ExpSpec::new(vol::t32_high(), alpha::mixed(512), if th { 4 } else { 3 }));
     // single FAT copy
@@ -208,6 +220,37 @@ pub fn specs(tier: &str, _prop: &str) -> Vec<ExpSpec> {
     v.extend(fragmented_dir_specs(th));
     v.extend(full_dir_specs(th));
     v.extend(dot_target_specs(th));
+    v
+}
+
+/// names the mixed alphabet does not contain: non-ASCII with a case partner, the longest legal name, a directory moved
+/// into its direct child
+pub fn name_specs(th: bool) -> Vec<ExpSpec> {
+    use harness::sess::DirRef;
+    let r = DirRef::Root;
+    let s = |x: &str| x.to_string();
+    let mut v = Vec::new();
+    for ft in [FatType::Fat12, FatType::Fat32] {
+        let mut c = vol::tiny_with(ft, 8, 16);
+        c.name = format!("{}-names", c.name);
+        let w255 = "w".repeat(255);
+        let alphabet = vec![
+            Op::CreateDir { base: r, path: s("d"), keep: None },
+            Op::Rename { base: r, src: s("d"), dst_base: r, dst: s("d/z") },
+            Op::CreateFile { base: r, path: s("\u{e9}t\u{e9}.txt"), keep: None },
+            Op::CreateFile { base: r, path: s("\u{c9}T\u{c9}.TXT"), keep: None },
+            Op::CreateDir { base: r, path: s("stra\u{df}e"), keep: None },
+            Op::CreateFile { base: r, path: s("STRASSE/a"), keep: None },
+            Op::CreateFile { base: r, path: format!("d/{w255}"), keep: None },
+            Op::OpenFile { base: r, path: format!("d/{}", w255.to_uppercase()), keep: None },
+            Op::Rename { base: r, src: format!("d/{w255}"), dst_base: r, dst: s("d/short") },
+            Op::Remove { base: r, path: s("\u{c9}t\u{e9}.txt") },
+            Op::List { base: r, path: s("") },
+            Op::List { base: r, path: s("d") },
+            Op::Remount,
+        ];
+        v.push(ExpSpec::new(c, alphabet, if th { 4 } else { 3 }).with_prefix(vec![]));
+    }
     v
 }
 
